@@ -264,3 +264,17 @@ M("C04", "circular-by-equality", DAOF, "        return parsed, parsed is self.me
 R("C04", "keepalive-list", DAOF, "        self.keep_alive[id(dao_obj)] = dao_obj\n", "        self.keep_alive[len(self.keep_alive)] = dao_obj\n") if False else None
 R("C04", "rename-existing", DAOF, "        existing = state.get_existing(obj)\n        if existing is not None:\n            return existing\n", "        found = state.get_existing(obj)\n        if found is not None:\n            return found\n")
 CASES[:] = [c for c in CASES if c]
+
+# ------------------------------------------------------------------------------------- C07
+EQF = "krrood/ormatic/eql_interface.py"
+M("C07", "operand-passthrough", EQF, "        raise UnsupportedQueryTypeError(\n            f\"Unsupported comparator operand type: {type(operand)}\"\n        )\n", "        return operand\n", "_translate_comparator_operand#default")
+M("C07", "setof-unguarded", EQF, "        if not isinstance(self.select_like, Entity):\n            raise UnsupportedQueryTypeError(\n                f\"Only queries over a single entity can be translated, got {type(self.select_like)}\"\n            )\n", "", "select_like.selected_variable")
+M("C07", "unknown-condition-ignored", EQF, "        raise UnsupportedQueryTypeError(f\"Unknown query type: {type(query)}\")", "        return None", "translate_query#default")
+M("C07", "unknown-condition-wrong-error", EQF, "        raise UnsupportedQueryTypeError(f\"Unknown query type: {type(query)}\")", "        raise NotImplementedError(f\"Unknown query type: {type(query)}\")", "translate_query#default")
+M("C07", "ge-as-gt", EQF, "        if operation is operator.ge or operator_name == \"ge\":\n            return left >= right", "        if operation is operator.ge or operator_name == \"ge\":\n            return left > right", "operator.ge")
+M("C07", "lt-swapped-operands", EQF, "        if operation is operator.lt or operator_name == \"lt\":\n            return left < right", "        if operation is operator.lt or operator_name == \"lt\":\n            return right < left", "operator.lt")
+M("C07", "ne-dropped", EQF, "        if operation is operator.ne or operator_name == \"ne\":\n            return left != right\n", "", "operator.ne")
+M("C07", "unknown-op-as-eq", EQF, "        raise UnsupportedOperatorError(f\"Unknown operator: {operation}\")", "        return left == right", "#unknown")
+M("C07", "the-as-first", EQF, "            return bound_query.one()", "            return bound_query.first()", "the-one-an-all")
+M("C07", "unknown-quantifier-all", EQF, "        raise UnsupportedQuantifierError(f\"Unknown quantifier: {type(self.quantifier)}\")", "        return bound_query.all()", "evaluate#quantifier")
+R("C07", "guard-with-tuple", EQF, "        if not isinstance(self.select_like, Entity):", "        if not isinstance(self.select_like, (Entity,)):")
